@@ -60,7 +60,7 @@ def strategy():
                'maxHandles': draw(st.integers(1, 6)), 'pruneEvery': draw(st.integers(1, 20)),
                'maxReadPairs': draw(st.sampled_from([None, None, None, 1, 2, n, n + 2, max(1, n // 2)])),
                'gz': draw(st.booleans()), 'lib': draw(st.sampled_from(['libA', 'my-lib_2', 'L' * 40])),
-               'final_newline': draw(st.sampled_from([True, True, False])),
+               'final_newline': draw(st.sampled_from([True, True, False])), 'no_log': draw(st.sampled_from([False, False, False, True])),
                'rerun': draw(st.sampled_from([False, False, False, True])), 'sep': draw(st.sampled_from(['/', '/', '//', '/./'])),
                'lanes': draw(st.integers(1, 2)), 'chunks': draw(st.integers(1, 3)), 'file_list': draw(st.booleans()),
                'file_order': draw(st.lists(st.integers(0, 5), min_size=0, max_size=6)), 'o_slash': draw(st.booleans())}
@@ -256,8 +256,9 @@ def run_loader(case, lib, d, with_rejects):
     with open(logp, 'w') as log:
         with contextlib.redirect_stdout(io.StringIO()), contextlib.redirect_stderr(io.StringIO()):
             try:
+                # the log handle is an optional argument of the API
                 ret = loader.demultiplex(files, maxReadPairs=cfg['maxReadPairs'], strategies=[s], library=cfg['lib'],
-                                         targetFile=target, rejectHandle=rej, log_handle=log)
+                                         targetFile=target, rejectHandle=rej, **({} if cfg.get('no_log') else {'log_handle': log}))
             except Exception as e:
                 import traceback
                 tb = [x for x in traceback.extract_tb(e.__traceback__) if 'singlecellmultiomics' in x.filename]
@@ -380,7 +381,7 @@ def eval_case(case):
             done = [ln for ln in run['log'].split('\n') if ln.startswith('done, processed:')]
             if not done or done[-1].split('\t')[1].split()[0] != str(consumed):
                 out.bad('%s:log-processed-count' % mode, run['log'][-300:])
-        if run['ret'] is not None:
+        if run['ret'] is not None and not cfg.get('no_log'):
             if 'processed %d read pairs' % consumed not in run['log']:
                 out.bad('%s:log-processed-count' % mode, run['log'][:200])
             if ny and '%s\t%d' % (name, ny) not in run['log']:
